@@ -1,8 +1,10 @@
 import operator
 import warnings
+from datetime import datetime
 from collections.abc import Iterable
 
 from .vector import Vector
+from .vector import _at_midnight
 
 from .naming import _sanitize_user_name
 
@@ -2316,10 +2318,15 @@ class Table(Vector):
 		# Stable sort: apply keys from last to first
 		for col, rev in reversed(list(zip(resolved, rev_flags))):
 			data = col._underlying
+			# (a <datetime> column may hold plain dates - the date-to-datetime widening - which Python
+			# cannot order against datetimes: each is compared as that day at midnight)
+			widen = col._dtype is not None and col._dtype.kind is datetime
 
-			def key_fn(i, data=data, rev=rev, na_last=na_last):
+			def key_fn(i, data=data, rev=rev, na_last=na_last, widen=widen):
 				v = data[i]
 				is_none = (v is None)
+				if widen and not is_none:
+					v = _at_midnight(v)
 
 				if na_last:
 					# Nones should be last for BOTH rev=False and rev=True
